@@ -1255,7 +1255,10 @@ def run_resend(case, ctx):
         else:
             if tagged == "tagerr" and via == "exchange":
                 raise HarnessError("TagCommandError from exchange()")
-            if last[-1]["verdict"] == "good" and len(last) == len(want):
+            # (an answer of the chain that was damaged in a way the CRC
+            # cannot see - verdict "either" - may rightly spoil the whole)
+            if all(e["verdict"] == "good" for e in last) and \
+                    len(last) == len(want):
                 raise Violation("ciu-rejects-good-crc", "%s raised %r although "
                                 "the last answer was intact" % (what, val))
             ctx.label("rejected")
